@@ -1087,6 +1087,70 @@ def _handler_methods() -> List[str]:
           "def validatorArity : List (String × Nat) := [" + ", ".join(f"({json.dumps(a)}, {k})" for a, k in arities) + "]", ""]
     return L
 
+
+# ---------------------------------------------------------------------------------------------- the routes of FileSystem._init_request_manager
+# Every `add_request(name, RequestType(func=…, validator=…))` of FileSystem._init_request_manager becomes a Lean function that composes the
+# TRANSLATED validator(s) with the TRANSLATED handler / method the route's func names:
+#     func = lambda request, context: RequestResponse.from_bool(self.<m>(folder_name=request[0][, file_name=request[1]]))
+#            with m in delete_file, delete_folder, restore_file, restore_folder           fromBool (<fs m> s r0 [r1])
+#     func = one of the translated handler closures                                          h… s r0 [r1 [r2]]
+#     func = a sub-manager / `_file_action`                                                  only the guard is emitted (route…Guard)
+#     validator = self._a [+ self._b]        (attributes bound in the same method: `self._a = FileSystem._XValidator(file_system=self)`)
+#                                                                                            if !(v… && v…) then (s, .failure) else …
+ROUTE_METHODS = {"delete_file": ("fsDeleteFile", 2), "delete_folder": ("fsDeleteFolder", 1), "restore_file": ("fsRestoreFile", 2),
+                 "restore_folder": ("fsRestoreFolder", 1)}
+
+
+def _route_methods() -> List[str]:
+    from harness.extract.filesystem import FS, _add_requests
+    irm = find_method(class_def(parse(FS), "FileSystem"), "_init_request_manager")
+    binds = {}
+    for st in irm.body:
+        if isinstance(st, ast.Assign) and isinstance(st.value, ast.Call) and "Validator" in _u(st.value.func):
+            if [k.arg for k in st.value.keywords] != ["file_system"] or _u(st.value.keywords[0].value) != "self" or st.value.args:
+                raise Unsupported("validator binding " + _u(st))
+            binds[_u(st.targets[0])] = _u(st.value.func)
+    vnames = {f"{cn}.{vn}": (nm, b.count("r")) for _, cn, vn, nm, v, b in VALIDATORS if v == "s"}
+    hnames = {py: (nm, b.count("r")) for py, nm, b in HANDLERS}
+    L: List[str] = []
+    seen = []
+    for mgr, name, func, val in _add_requests(irm):
+        guards = []
+        for part in [x.strip() for x in val.split("+")] if val else []:
+            cls = binds.get(part)
+            if cls is None or cls not in vnames:
+                raise Unsupported(f"route {mgr}/{name}: validator {part}")
+            guards.append(vnames[cls])
+        key = ("route" + "".join(w.capitalize() for w in (mgr.replace("self.", "").replace("_manager", "").strip("_") or "rm").split("_"))
+               + name.capitalize())
+        body = None
+        ar = max([a for _, a in guards], default=0)
+        f = ast.parse(func, mode="eval").body
+        if isinstance(f, ast.Lambda):
+            c = f.body
+            if not (isinstance(c, ast.Call) and _u(c.func) == "RequestResponse.from_bool" and len(c.args) == 1 and isinstance(c.args[0], ast.Call)
+                    and _u(c.args[0].func).startswith("self.") and _u(c.args[0].func)[5:] in ROUTE_METHODS):
+                raise Unsupported(f"route {mgr}/{name}: " + func[:80])
+            lean, n = ROUTE_METHODS[_u(c.args[0].func)[5:]]
+            args = _kwargs(c.args[0], ("folder_name", "file_name")[:n])
+            if args != [f"r{i}" for i in range(n)]:
+                raise Unsupported(f"route {mgr}/{name}: options {args}")
+            body, ar = f"fromBool ({lean} s {' '.join(args)})", max(ar, n)
+        elif func in hnames:
+            body, ar = f"{hnames[func][0]} s {' '.join('r%d' % i for i in range(hnames[func][1]))}", max(ar, hnames[func][1])
+        binders = " ".join(f"(r{i} : {'Bool' if i == 2 else 'Name'})" for i in range(ar))
+        g = " && ".join(f"{nm} s {' '.join('r%d' % i for i in range(a))}" for nm, a in guards)
+        if body is None:
+            if guards:
+                L += [f"/-- the guard of the route `{name}` of `{mgr}` (func `{func}`) -/", f"def {key}Guard (s : State) {binders} : Bool :=", f"  {g}", ""]
+                seen.append(key + "Guard")
+            continue
+        L += [f"/-- the route `{name}` of `{mgr}`: validator `{val or '-'}`, then `{func[:60]}` -/", f"def {key} (s : State) {binders} : State × Out :=",
+              (f"  if !({g}) then (s, .failure) else {body}" if guards else f"  {body}"), ""]
+        seen.append(key)
+    L += ["def routeNames : List String := [" + ", ".join(json.dumps(k) for k in seen) + "]", ""]
+    return ["/-- `RequestResponse.from_bool` -/", "def fromBool (r : State × Bool) : State × Out := (r.1, ofBool r.2)", ""] + L
+
 LOOKUP_METHODS = [  # (class, method, lean name, kind, result, parameters (python name -> (lean binder, env kind)))
     ("Folder", "get_file", "folderGetFile", "folder", "optfile", [("file_name", "Name", None), ("include_deleted", "Bool", "bool")]),
     ("Folder", "remove_file", "folderRemoveFile", "folder", "unit", [("file", "File", "file")]),
@@ -1171,6 +1235,7 @@ def emit() -> str:
     R += _tick_methods()
     R += _describe_methods()
     R += _handler_methods()
+    R += _route_methods()
     L = ["import PrimaiteModel.Model.FileSystemHealth", "namespace Primaite.Gen.FileSystemMethods", "open Primaite.FileSystem", "",
          "/-- `Folder.restore_file`, translated statement by statement -/",
          "def folderRestoreFile (g : Folder) (file_name : Name) : Folder × Bool :=",
